@@ -13,6 +13,7 @@ import (
 	"github.com/golang/protobuf/proto"
 	"github.com/vx-labs/wasp/v4/wasp"
 	"github.com/vx-labs/wasp/v4/wasp/api"
+	"github.com/vx-labs/wasp/v4/wasp/distributed"
 )
 
 // ErrInconclusive is returned when quiescence was not reached within the wall-clock
@@ -83,6 +84,23 @@ func NewCluster() (*Cluster, error) {
 	}
 	current.Store(cl)
 	hookOnce.Do(func() {
+		// the broker's injectable wall clock follows the virtual clock of the current cluster, so
+		// that whatever the broker remembers by wall-clock time can be aged by idle steps
+		epoch := time.Now()
+		// the stamps of the replicated state too: real time (so that no two stamps are equal) plus
+		// the virtual offset (so that records can grow hours old)
+		distributed.VerifSetClock(func() int64 {
+			if c, ok := current.Load().(*Cluster); ok && c != nil {
+				return time.Now().UnixNano() + int64(c.Clock.Now())
+			}
+			return time.Now().UnixNano()
+		})
+		wasp.Clock = func() time.Time {
+			if c, ok := current.Load().(*Cluster); ok && c != nil {
+				return epoch.Add(c.Clock.Now())
+			}
+			return time.Now()
+		}
 		wasp.VerifOnSessionEnded.Store(func(id string) {
 			if c, ok := current.Load().(*Cluster); ok && c != nil {
 				c.mu.Lock()
